@@ -83,7 +83,7 @@ class RawValue(object):
 class Registry(object):
     """Recording callables registered on the dispatcher under test"""
 
-    NAMES = ["echo", "boom", "two", "kw", "none", "a.b", "é", "nonjson", "zero", "badkeys", "ident", "ident"]
+    NAMES = ["echo", "boom", "two", "kw", "none", "a.b", "é", "nonjson", "zero", "badkeys", "ident", "ident", "rpc.status", "falsy"]
 
     def __init__(self, jsonclass=True, exc_factory=None):
         self.log = []
@@ -129,6 +129,18 @@ class Registry(object):
             reg.log.append(("ident", [x], {}))
             return x
 
+        class FalsyCallable(list):
+            """A registered callable object whose truth value is False (an empty collection with __call__)"""
+
+            def __call__(self, *a):
+                reg.log.append(("falsy", list(a), {}))
+                return "falsy ran"
+
+        def rpc_status(*a):
+            # a name inside the "rpc." space the 2.0 specification reserves: registered all the same
+            reg.log.append(("rpc.status", list(a), {}))
+            return "status"
+
         def badkeys(*a):
             # passes the class translator (keys are not converted), fails in the JSON encoder
             reg.log.append(("badkeys", list(a), {}))
@@ -136,7 +148,7 @@ class Registry(object):
 
         self.funcs = {"echo": echo, "boom": boom, "two": two, "kw": kw,
                       "none": none, "a.b": echo, "é": none,
-                      "nonjson": nonjson, "zero": zero, "badkeys": badkeys, "ident": ident}
+                      "nonjson": nonjson, "zero": zero, "badkeys": badkeys, "ident": ident, "rpc.status": rpc_status, "falsy": FalsyCallable()}
 
     # -- custom dispatch function (also used as instance._dispatch)
     def custom_dispatch(self, method, params):
@@ -188,6 +200,9 @@ class Registry(object):
                 def _dispatch(self, method, params=None, config=None, *rest, **options):
                     return reg.custom_dispatch(method, params)
 
+                def __len__(self):
+                    return 0      # a service object that is an empty collection: falsy, registered all the same
+
             dispatcher.register_instance(FlexInst())
             return None
         raise ValueError(mode)
@@ -229,7 +244,7 @@ class Registry(object):
             return "error", (-32602, []), []
         args = list(params) if isinstance(params, list) else []
         kwargs = dict(params) if isinstance(params, dict) else {}
-        name = f.__name__
+        name = getattr(f, "__name__", method)
         if name == "echo":
             return "result", {"args": args, "kwargs": kwargs}, [("echo", args, kwargs)]
         if name == "boom":
@@ -244,6 +259,10 @@ class Registry(object):
             a = bound.arguments["a"]
             k = dict(bound.arguments.get("k", {}))
             return "result", [a, k], [("kw", [a], k)]
+        if method == "falsy":
+            return "result", "falsy ran", [("falsy", args, {})]
+        if method == "rpc.status":
+            return "result", "status", [("rpc.status", args, {})]
         if name == "ident":
             bound.apply_defaults()
             x = bound.arguments["x"]
